@@ -27,8 +27,9 @@ ASSUMPTIONS = ["float-typed leaves are generated representable in the target wid
 PARTIAL = ["C10_writer_accepts: 'everything validate accepts the writers encode' is false as it stands (C10_writer_accepts_refuted: a foreign "
            "exception in the branch search, the strict writer's field discipline, float overflow) and is replaced by the exact "
            "characterisation C10_writer_accepts_iff (for accepted data the writer -- default, strict or strict_allow_default -- elaborates the "
-           "datum iff wneed holds); wneed's union clause refers to the answer of the branch search (characterised by C09), it is not "
-           "re-derived from schema-level conditions",
+           "datum iff wneed holds); wneed's union clause refers to the answer of the branch search (characterised by C09); that the search "
+           "raises no foreign exception is proved for schemas whose references resolve (C10_search_no_foreign_exception, closed_refs/"
+           "closed_env evaluated in-model on every case); that it terminates within the fuel is not derived from schema-level conditions",
            "the input-side hypotheses data_ok (wf_py, pyfloats_ok, wf_schema/wf_env, dflt/env_floats_ok) of C10_accepted_typed / "
            "C10_accepted_roundtrip are evaluated in-model on every case; floats_ok of the elaborated value is derived in Rocq "
            "(proofs/ElabFloats.v over proofs/FloatProofs.v) and still printed as a cross-check",
@@ -185,7 +186,7 @@ def check_writer(ctx, c, m, parts, stats, good):
         if len(mfields) > 5 and mfields[5] != "hyp":
             ctx.violation("side-condition", c.to_json(), impl=None, model=mfields[5], signature="C10:side-condition:data_ok",
                           found_input=False, kind="broken-obligation",
-                          detail="a hypothesis of C10_accepted_typed (wf_py / pyfloats_ok / wf_schema / wf_env / dflt_floats_ok) is false on a generated case")
+                          detail="a hypothesis of C10_accepted_typed / C10_only_validation_error (wf_py / pyfloats_ok / wf_schema / wf_env / dflt_floats_ok / closed_refs / closed_env) is false on a generated case")
         if mw.startswith("W:"):
             if mw[2:].split(";")[0] != w[1].hex():
                 ctx.violation("corr:validate-vs-writer", c.to_json(), impl=w[1].hex()[:600], model=mw[:600],
